@@ -72,7 +72,19 @@ func (pf *PathFacts) Executed(in ssa.Instruction) bool {
 // path knows which assignment err came from and that it was nil.
 // It returns false when the path bound was exceeded (the caller must then not conclude).
 func PathsTo(at ssa.Instruction, maxPaths int, visit func(pf *PathFacts)) bool {
-	fn := at.Parent()
+	return EnumPaths(at.Parent(), maxPaths, func(in ssa.Instruction, pf *PathFacts) bool {
+		if in == at {
+			visit(pf)
+			return true
+		}
+		return false
+	})
+}
+
+// EnumPaths enumerates the feasible paths of fn from its entry (each CFG edge at most once per
+// path). before is called ahead of every instruction with the facts of the path so far; when
+// it returns true the path ends there. The result is false when the path bound was exceeded.
+func EnumPaths(fn *ssa.Function, maxPaths int, before func(in ssa.Instruction, pf *PathFacts) bool) bool {
 	if len(fn.Blocks) == 0 {
 		return true
 	}
@@ -85,13 +97,25 @@ func PathsTo(at ssa.Instruction, maxPaths int, visit func(pf *PathFacts)) bool {
 		}
 		n0 := len(pf.Trace)
 		for _, in := range b.Instrs {
-			if in == at {
+			if before(in, pf) {
 				count++
-				visit(pf)
 				pf.Trace = pf.Trace[:n0]
 				return
 			}
 			pf.Trace = append(pf.Trace, in)
+			// a value computed again (a later loop iteration) is a new value: what the path
+			// knew about the previous one no longer applies
+			if v, isV := in.(ssa.Value); isV {
+				if _, has := pf.Nil[v]; has {
+					nn := make(map[ssa.Value]NS, len(pf.Nil))
+					for kk, vv := range pf.Nil {
+						if kk != v {
+							nn[kk] = vv
+						}
+					}
+					pf.Nil = nn
+				}
+			}
 			switch x := in.(type) {
 			case *ssa.Store:
 				if al, ok := x.Addr.(*ssa.Alloc); ok && !al.Heap {
@@ -114,6 +138,9 @@ func PathsTo(at ssa.Instruction, maxPaths int, visit func(pf *PathFacts)) bool {
 					}
 				}
 			}
+		}
+		if len(b.Succs) == 0 {
+			count++
 		}
 		for k, s := range b.Succs {
 			e := edge{b.Index, s.Index}
